@@ -2,7 +2,8 @@
 # tools/regress.sh [name-filter]
 # Regression over the seeded corpus: every seeded/<name>/patch.diff must make the check of the property it
 # breaks (meta.json: breaks_property) exit 1 with a VIOLATION line; every seeded-harmless/<name>/patch.diff
-# (a behaviour-preserving refactoring) must leave the checks of its package's properties at exit 0.
+# (a behaviour-preserving refactoring) and every seeded-neutral/<name>/patch.diff (a behaviour change no property
+# speaks about) must leave the checks of its package's properties at exit 0.
 # Uses tools/mutcheck.sh (applies to /repo, restores it and the evidence files). Do not run while a `vp run`
 # sweep is active: those use /repo itself.
 cd /verif || exit 2
@@ -20,7 +21,7 @@ for d in seeded/*/; do
   fi
 done
 declare -A PK=( [date]="C01 C07 C09 C11 C15" [roman]="C02 C10" [sem]="C03 C06 C14" [size]="C04 C08 C12 C13" [uu]="C05 C19" [test]="C20" [internal]="C01 C05 C16" )
-for d in seeded-harmless/*/; do
+for d in seeded-harmless/*/ seeded-neutral/*/; do
   n=$(basename "$d"); [[ -n "$filter" && "$n" != *"$filter"* ]] && continue
   pkg=${n%%-*}
   out=$(tools/mutcheck.sh "/verif/$d/patch.diff" ${PK[$pkg]} C16 C17 C18 2>&1)
